@@ -35,6 +35,7 @@ var props = map[string]struct {
 	"C31":    {"model_checking", h.C31},
 	"C24":    {"exploration", h.C24},
 	"C25":    {"exploration", h.C25},
+	"C27":    {"exploration", h.C27},
 	"C28":    {"exploration", h.C28},
 	"C29":    {"exploration", h.C29},
 	"C30":    {"exploration", h.C30},
